@@ -36,7 +36,7 @@ HASHSEEDS = ["0", "1", "2", "3", "12345", "17", "99", "424242", "7", "31337", "5
 
 def budget(tier: str) -> int:
     """cases for oracle (a)"""
-    return 1600 if tier == "quick" else 32000
+    return 1000 if tier == "quick" else 32000
 
 
 def time_budget(tier: str) -> float:
@@ -150,8 +150,8 @@ def shard_extra(tier: str, seed: int, shard: int, nshards: int) -> dict:
     """oracles (b) and (c) on a per-shard pool"""
     from hypothesis import given  # pylint: disable=import-outside-toplevel
 
-    pool_size = 10 if tier == "quick" else 24
-    sequences = 6 if tier == "quick" else 40
+    pool_size = 8 if tier == "quick" else 24
+    sequences = 5 if tier == "quick" else 40
     nseeds = 4 if tier == "quick" else 11
     pool: list = []
 
